@@ -192,6 +192,12 @@ def step (line : String) : String :=
     match gid.toNat? with
     | some g => s!"err=nil txs=1 m=registerGroupPubKey id={g} key=sk*G2"
     | none => "bad-op"
+  | ["rgk", k] =>
+    -- a group key chosen for the byte pattern of its encoding, decodePubKey → real registerGroup → adaptor: one transaction
+    -- with the id; the four words are judged by the oracle (go-ethereum bn256 encoding of k·G2)
+    match k.toNat? with
+    | some k => s!"err=false txs=1 id={k % 2 ^ 256}"
+    | none => "bad-op"
   | ["cc", k, n0] =>
     -- k concurrent callers, one endpoint that accepts everything: the queue serialises the requests, so the accepted
     -- nonces are those of the sequential history (`accepted_nonces_consecutive`): n0, n0+1, …
